@@ -260,3 +260,28 @@ def r15_6(ctx):
             good = (okst and p.terminal == "return" and member_calls) or (not okst and p.terminal == "raise" and not member_calls)
             ctx.require(good, f"{meth}:{'ok' if okst else 'refused'}", f"{meth} with status {aw[0].extra!r}: {p.terminal} {p.value!r}, membership calls "
                         f"{[e.what for e in member_calls]}", func=f, trace=p.trace())
+
+
+@rule("R15.7", ["C15"], "T-ORD", floor=1)
+def r15_7(ctx):
+    """Start-up: the table is scanned first, then every group of every coordinator endpoint other than endpoint 0 (ZDO)
+    is subscribed exactly once; groups of endpoint 0 are not."""
+    repo = ctx.repo
+    f = repo.func(f"{MC}:Multicast.startup")
+    ctx.fn(f)
+    cls = repo.cls(MC, "Multicast")
+    es, sl = statuses(ctx)
+    px = PX(repo, models=[("self._initialize", Outcomes(OK(None))), ("self.subscribe", Outcomes(OK(sl["OK"]), OK(sl["FAIL"])))], inline=same_class())
+
+    def setup():
+        eps = {0: Obj(TypeRef("Endpoint"), {"member_of": {10: "g10"}}, tag="ep0"), 1: Obj(TypeRef("Endpoint"), {"member_of": {20: "g20", 30: "g30"}}, tag="ep1"),
+               242: Obj(TypeRef("Endpoint"), {"member_of": {40: "g40"}}, tag="ep242")}
+        return self_obj(cls, {"_multicast": {}, "_available": set()}), {"coordinator": Obj(TypeRef("Device"), {"endpoints": eps}, tag="coordinator")}
+
+    for p in px.explore(f, setup):
+        ctx.paths += 1
+        aw = [e for e in p.events if e.kind == "await"]
+        subs = [e.args[0] for e in aw if e.what == "self.subscribe"]
+        ok = p.terminal == "return" and aw and aw[0].what == "self._initialize" and sorted(subs) == [20, 30, 40]
+        ctx.require(ok, "startup", f"startup awaits {[e.what for e in aw[:1]]} first and subscribes groups {subs}; must scan the table first and then "
+                    "subscribe exactly the groups of the non-ZDO endpoints [20, 30, 40]", func=f, trace=p.trace(12))
